@@ -46,7 +46,17 @@ CONSTANTS Enders, Mutators, Children, Readers,
           EvInit,       \* events recorded before the processes start (sequence of names)
           SnapShares,   \* BOOLEAN: the snapshot aliases the event queue instead of copying it
           Panickers,    \* subset of Enders whose End runs deferred during a panic (recover branch)
-          PShape        \* "locked" | "recheck" | "norecheck": where the recovered value is formatted
+          PShape,       \* "locked" | "recheck" | "norecheck": where the recovered value is formatted
+          Sampled,      \* BOOLEAN: sampling decision of the span, RecordAndSample / RecordOnly. Every clause is independent
+                        \* of it: a RecordOnly span is a recording span and goes through every processor.
+          ChildGuard,   \* "recording" (addChild counts while the parent records) | "sampled" (named deviation D5: Start
+                        \* skips addChild for a parent without the sampled flag)
+          Stoppers,     \* processes calling TracerProvider.Shutdown
+          Unregs,       \* processes calling TracerProvider.UnregisterSpanProcessor(Processors[1])
+          PreCheck,     \* BOOLEAN: Register/UnregisterSpanProcessor test isShutdown before taking p.mu
+          ReentReg,     \* BOOLEAN: the processors' Shutdown calls RegisterSpanProcessor (re-entrant use from a callback)
+          WaitFor,      \* registrars started by a processor's Shutdown, which waits for them (reconfiguration worker)
+          UnregShape    \* "locked": Unregister runs the processor's Shutdown while holding p.mu | "unlocked": afterwards
 
 VARIABLES mu,        \* span lock holder: "none" | process
           endTime,   \* "none" (zero) | the ender whose end time is stored
@@ -58,13 +68,14 @@ VARIABLES mu,        \* span lock holder: "none" | process
           rval,      \* reader -> what IsRecording read
           plist,     \* the provider's processor list (read through an atomic pointer)
           evs,       \* [q, drop]: the span's event FIFO and its dropped counter
+          prov,      \* [mu, down]: the provider's lock holder and its isShutdown flag
           win,       \* enders between a passed recording check and their EMark (history, for D1)
           winOverlap,\* two enders were in `win` at the same time (history, for D1)
           mon
-vars == <<mu, endTime, parts, childCount, pc, esnap, eprocs, rval, plist, evs, win, winOverlap, mon>>
+vars == <<mu, endTime, parts, childCount, pc, esnap, eprocs, rval, plist, evs, prov, win, winOverlap, mon>>
 
 RegSet == {Registrars[i] : i \in 1..Len(Registrars)}
-Procs == Enders \cup Mutators \cup Children \cup Readers \cup RegSet
+Procs == Enders \cup Mutators \cup Children \cup Readers \cup RegSet \cup Stoppers \cup Unregs
 ProcSet == {Processors[i] : i \in 1..Len(Processors)}
 (* the processor registered by the i-th registrar is named after its position in the final list *)
 Late(g) == LET i == CHOOSE j \in 1..Len(Registrars) : Registrars[j] = g IN "p" \o ToString(Len(Processors) + i)
@@ -84,11 +95,12 @@ Init ==
   /\ pc = [x \in Procs |-> "idle"]
   /\ esnap = [e \in Enders |-> NoSnap] /\ eprocs = [e \in Enders |-> <<>>]
   /\ rval = [r \in Readers |-> FALSE] /\ plist = Processors /\ win = {} /\ winOverlap = FALSE
-  /\ evs = [q |-> EvInit, drop |-> 0]
+  /\ evs = [q |-> EvInit, drop |-> 0] /\ prov = [mu |-> "none", down |-> FALSE]
   /\ mon = [endCalled |-> FALSE, endOpen |-> 0, endRet |-> FALSE,
             called |-> {}, mustIn |-> {}, mustOut |-> {},
             childMustIn |-> 0, childEligible |-> 0, rAfter |-> {},
             must |-> ProcSet,     \* processors whose registration returned before any End call
+            sd |-> FALSE,         \* some TracerProvider.Shutdown call has begun (delivery is C15's subject from then on)
             onEnd |-> [p \in ProcSet \cup LateSet |-> 0], ets |-> {}, views |-> {}, taskEnds |-> 0, bad |-> {}]
 
 Go(x, l) == pc' = [pc EXCEPT ![x] = l]
@@ -99,60 +111,60 @@ Unlock(x) == mu = x /\ mu' = "none"
 AfterCheck == IF ExecTracer /\ Shape \in {"window", "recheck"} THEN "unlockT" ELSE "mark"
 ECall(e) == /\ pc[e] = "idle" /\ Go(e, "lock")
             /\ mon' = [mon EXCEPT !.endCalled = TRUE, !.endOpen = @ + 1]
-            /\ UNCHANGED <<evs, plist, mu, endTime, parts, childCount, esnap, eprocs, rval, win, winOverlap>>
+            /\ UNCHANGED <<prov, evs, plist, mu, endTime, parts, childCount, esnap, eprocs, rval, win, winOverlap>>
 ELock(e) == /\ pc[e] = "lock" /\ Lock(e) /\ Go(e, "check")
-            /\ UNCHANGED <<evs, plist, endTime, parts, childCount, esnap, eprocs, rval, win, winOverlap, mon>>
+            /\ UNCHANGED <<prov, evs, plist, endTime, parts, childCount, esnap, eprocs, rval, win, winOverlap, mon>>
 ECheck(e) == /\ pc[e] = "check"
              /\ IF endTime # "none"
-                  THEN Go(e, "unlockign") /\ UNCHANGED <<evs, plist, win, winOverlap>>
+                  THEN Go(e, "unlockign") /\ UNCHANGED <<prov, evs, plist, win, winOverlap>>
                   ELSE /\ Go(e, IF e \in Panickers THEN (IF PShape = "locked" THEN "pfmt" ELSE "punlock") ELSE AfterCheck)
                        /\ win' = win \cup {e} /\ winOverlap' = (winOverlap \/ win # {})
-             /\ UNCHANGED <<evs, plist, mu, endTime, parts, childCount, esnap, eprocs, rval, mon>>
+             /\ UNCHANGED <<prov, evs, plist, mu, endTime, parts, childCount, esnap, eprocs, rval, mon>>
 (* End deferred during a panic: recover(), describe the recovered value (user code: Error()/String(), stack
    capture), add an exception event, go on ending the span, re-panic afterwards *)
 EPanicUnlock(e) == /\ pc[e] = "punlock" /\ Unlock(e) /\ Go(e, "pfmt")
-                   /\ UNCHANGED <<evs, plist, endTime, parts, childCount, esnap, eprocs, rval, win, winOverlap, mon>>
+                   /\ UNCHANGED <<prov, evs, plist, endTime, parts, childCount, esnap, eprocs, rval, win, winOverlap, mon>>
 EPanicFormat(e) == /\ pc[e] = "pfmt" /\ Go(e, IF PShape = "locked" THEN "paddev" ELSE "prelock")
-                   /\ UNCHANGED <<evs, plist, mu, endTime, parts, childCount, esnap, eprocs, rval, win, winOverlap, mon>>
+                   /\ UNCHANGED <<prov, evs, plist, mu, endTime, parts, childCount, esnap, eprocs, rval, win, winOverlap, mon>>
 EPanicRelock(e) == /\ pc[e] = "prelock" /\ Lock(e) /\ Go(e, IF PShape = "recheck" THEN "precheck2" ELSE "paddev")
-                   /\ UNCHANGED <<evs, plist, endTime, parts, childCount, esnap, eprocs, rval, win, winOverlap, mon>>
+                   /\ UNCHANGED <<prov, evs, plist, endTime, parts, childCount, esnap, eprocs, rval, win, winOverlap, mon>>
 EPanicRecheck(e) == /\ pc[e] = "precheck2"
                     /\ IF endTime # "none" THEN (Go(e, "unlockign2") /\ win' = win \ {e})
                                            ELSE (Go(e, "paddev") /\ UNCHANGED win)
-                    /\ UNCHANGED <<evs, plist, mu, endTime, parts, childCount, esnap, eprocs, rval, winOverlap, mon>>
+                    /\ UNCHANGED <<prov, evs, plist, mu, endTime, parts, childCount, esnap, eprocs, rval, winOverlap, mon>>
 EPanicAddEvent(e) == /\ pc[e] = "paddev" /\ evs' = Push(evs, e) /\ Go(e, AfterCheck)
-                     /\ UNCHANGED <<plist, mu, endTime, parts, childCount, esnap, eprocs, rval, win, winOverlap, mon>>
+                     /\ UNCHANGED <<prov, plist, mu, endTime, parts, childCount, esnap, eprocs, rval, win, winOverlap, mon>>
 EUnlockIgnored(e) == /\ pc[e] \in {"unlockign", "unlockign2"} /\ Unlock(e) /\ Go(e, "ret")
-                     /\ UNCHANGED <<evs, plist, endTime, parts, childCount, esnap, eprocs, rval, win, winOverlap, mon>>
+                     /\ UNCHANGED <<prov, evs, plist, endTime, parts, childCount, esnap, eprocs, rval, win, winOverlap, mon>>
 EUnlockForTask(e) == /\ pc[e] = "unlockT" /\ Unlock(e) /\ Go(e, "task")
-                     /\ UNCHANGED <<evs, plist, endTime, parts, childCount, esnap, eprocs, rval, win, winOverlap, mon>>
+                     /\ UNCHANGED <<prov, evs, plist, endTime, parts, childCount, esnap, eprocs, rval, win, winOverlap, mon>>
 ETaskEnd(e) == /\ pc[e] \in {"task", "task2"}
                /\ Go(e, IF pc[e] = "task" THEN "relock" ELSE "procs")
                /\ mon' = [mon EXCEPT !.taskEnds = @ + 1]
-               /\ UNCHANGED <<evs, plist, mu, endTime, parts, childCount, esnap, eprocs, rval, win, winOverlap>>
+               /\ UNCHANGED <<prov, evs, plist, mu, endTime, parts, childCount, esnap, eprocs, rval, win, winOverlap>>
 ERelock(e) == /\ pc[e] = "relock" /\ Lock(e)
               /\ Go(e, IF Shape = "recheck" THEN "recheck" ELSE "mark")     \* "window": no re-check of isRecording
-              /\ UNCHANGED <<evs, plist, endTime, parts, childCount, esnap, eprocs, rval, win, winOverlap, mon>>
+              /\ UNCHANGED <<prov, evs, plist, endTime, parts, childCount, esnap, eprocs, rval, win, winOverlap, mon>>
 ERecheck(e) == /\ pc[e] = "recheck"
                /\ IF endTime # "none" THEN (Go(e, "unlockign2") /\ win' = win \ {e})     \* lost the race: End does nothing
                                       ELSE (Go(e, "mark") /\ UNCHANGED win)
-               /\ UNCHANGED <<evs, plist, mu, endTime, parts, childCount, esnap, eprocs, rval, winOverlap, mon>>
+               /\ UNCHANGED <<prov, evs, plist, mu, endTime, parts, childCount, esnap, eprocs, rval, winOverlap, mon>>
 EMark(e) == /\ pc[e] = "mark" /\ endTime' = e /\ Go(e, "unlock") /\ win' = win \ {e}
-            /\ UNCHANGED <<evs, plist, mu, parts, childCount, esnap, eprocs, rval, winOverlap, mon>>
+            /\ UNCHANGED <<prov, evs, plist, mu, parts, childCount, esnap, eprocs, rval, winOverlap, mon>>
 EUnlock(e) == /\ pc[e] = "unlock" /\ Unlock(e)
               /\ Go(e, IF ExecTracer /\ Shape = "markfirst" THEN "task2" ELSE "procs")
-              /\ UNCHANGED <<evs, plist, endTime, parts, childCount, esnap, eprocs, rval, win, winOverlap, mon>>
+              /\ UNCHANGED <<prov, evs, plist, endTime, parts, childCount, esnap, eprocs, rval, win, winOverlap, mon>>
 EGetProcs(e) == /\ pc[e] = "procs" /\ eprocs' = [eprocs EXCEPT ![e] = plist]
                 /\ Go(e, IF plist = <<>> THEN "ret" ELSE "snaplock")
-                /\ UNCHANGED <<evs, plist, mu, endTime, parts, childCount, esnap, rval, win, winOverlap, mon>>
+                /\ UNCHANGED <<prov, evs, plist, mu, endTime, parts, childCount, esnap, rval, win, winOverlap, mon>>
 ESnapLock(e) == /\ pc[e] = "snaplock" /\ Lock(e) /\ Go(e, "snapcopy")
-                /\ UNCHANGED <<evs, plist, endTime, parts, childCount, esnap, eprocs, rval, win, winOverlap, mon>>
+                /\ UNCHANGED <<prov, evs, plist, endTime, parts, childCount, esnap, eprocs, rval, win, winOverlap, mon>>
 ESnapCopy(e) == /\ pc[e] = "snapcopy" /\ Go(e, "snapunlock")
                 /\ esnap' = [esnap EXCEPT ![e] = [et |-> endTime, copied |-> {x \in parts : x[1] \notin Shared},
                                                    child |-> childCount, evq |-> evs.q, evdrop |-> evs.drop]]
-                /\ UNCHANGED <<evs, plist, mu, endTime, parts, childCount, eprocs, rval, win, winOverlap, mon>>
+                /\ UNCHANGED <<prov, evs, plist, mu, endTime, parts, childCount, eprocs, rval, win, winOverlap, mon>>
 ESnapUnlock(e) == /\ pc[e] = "snapunlock" /\ Unlock(e) /\ Go(e, "onend")
-                  /\ UNCHANGED <<evs, plist, endTime, parts, childCount, esnap, eprocs, rval, win, winOverlap, mon>>
+                  /\ UNCHANGED <<prov, evs, plist, endTime, parts, childCount, esnap, eprocs, rval, win, winOverlap, mon>>
 (* the processor is handed the snapshot: this is what the contract judges *)
 Torn(v) == \E m \in Mutators : PartsOf(m) \cap v # {} /\ ~(PartsOf(m) \subseteq v)
 Judge(m, p, s) ==
@@ -171,81 +183,139 @@ EOnEnd(e) == /\ pc[e] = "onend"
                                    !.bad = @ \cup Judge(mon, p, esnap[e])]
              /\ eprocs' = [eprocs EXCEPT ![e] = Tail(@)]
              /\ Go(e, IF Len(eprocs[e]) = 1 THEN "ret" ELSE "onend")
-             /\ UNCHANGED <<evs, plist, mu, endTime, parts, childCount, esnap, rval, win, winOverlap>>
+             /\ UNCHANGED <<prov, evs, plist, mu, endTime, parts, childCount, esnap, rval, win, winOverlap>>
 ERet(e) == /\ pc[e] = "ret" /\ Go(e, "done")
            /\ mon' = [mon EXCEPT !.endOpen = @ - 1, !.endRet = TRUE,
                         !.bad = @ \cup (IF mon.endOpen = 1 /\ \E p \in mon.must : mon.onEnd[p] = 0
                                           THEN {"not-delivered"} ELSE {})]
-           /\ UNCHANGED <<evs, plist, mu, endTime, parts, childCount, esnap, eprocs, rval, win, winOverlap>>
+           /\ UNCHANGED <<prov, evs, plist, mu, endTime, parts, childCount, esnap, eprocs, rval, win, winOverlap>>
 
 (* ---------------------------------------------------------------- mutators *)
 ApplyPc(m) == IF m \in EvMut THEN "applyev" ELSE "apply1"
 MCall(m) == /\ pc[m] = "idle" /\ Go(m, IF m \in UserMut /\ MShape # "locked" THEN "precheck" ELSE "lock")
             /\ mon' = [mon EXCEPT !.called = @ \cup {m}, !.mustOut = IF mon.endRet THEN @ \cup {m} ELSE @]
-            /\ UNCHANGED <<evs, plist, mu, endTime, parts, childCount, esnap, eprocs, rval, win, winOverlap>>
+            /\ UNCHANGED <<prov, evs, plist, mu, endTime, parts, childCount, esnap, eprocs, rval, win, winOverlap>>
 MLock(m) == /\ pc[m] = "lock" /\ Lock(m) /\ Go(m, "check")
-            /\ UNCHANGED <<evs, plist, endTime, parts, childCount, esnap, eprocs, rval, win, winOverlap, mon>>
+            /\ UNCHANGED <<prov, evs, plist, endTime, parts, childCount, esnap, eprocs, rval, win, winOverlap, mon>>
 (* unlocked shapes: `if !s.IsRecording() { return }` (takes and releases the lock), then the user code, then the lock *)
 MPreCheck(m) == /\ pc[m] = "precheck" /\ mu = "none" /\ Go(m, IF endTime = "none" THEN "user" ELSE "ret")
-                /\ UNCHANGED <<evs, plist, mu, endTime, parts, childCount, esnap, eprocs, rval, win, winOverlap, mon>>
+                /\ UNCHANGED <<prov, evs, plist, mu, endTime, parts, childCount, esnap, eprocs, rval, win, winOverlap, mon>>
 MUser(m) == /\ pc[m] = "user" /\ Go(m, IF MShape = "locked" THEN ApplyPc(m) ELSE "lock")      \* err.Error()
-            /\ UNCHANGED <<evs, plist, mu, endTime, parts, childCount, esnap, eprocs, rval, win, winOverlap, mon>>
+            /\ UNCHANGED <<prov, evs, plist, mu, endTime, parts, childCount, esnap, eprocs, rval, win, winOverlap, mon>>
 MCheck(m) == /\ pc[m] = "check"
              /\ Go(m, IF m \in UserMut /\ MShape = "norecheck" THEN ApplyPc(m)       \* D3: no check under the lock
                        ELSE IF endTime # "none" THEN "unlock"
                        ELSE IF m \in UserMut /\ MShape = "locked" THEN "user" ELSE ApplyPc(m))
-             /\ UNCHANGED <<evs, plist, mu, endTime, parts, childCount, esnap, eprocs, rval, win, winOverlap, mon>>
+             /\ UNCHANGED <<prov, evs, plist, mu, endTime, parts, childCount, esnap, eprocs, rval, win, winOverlap, mon>>
 MApply(m) == /\ pc[m] \in {"apply1", "apply2"}
              /\ parts' = parts \cup {<<m, IF pc[m] = "apply1" THEN 1 ELSE 2>>}
              /\ Go(m, IF pc[m] = "apply1" THEN "apply2" ELSE "unlock")
-             /\ UNCHANGED <<evs, plist, mu, endTime, childCount, esnap, eprocs, rval, win, winOverlap, mon>>
+             /\ UNCHANGED <<prov, evs, plist, mu, endTime, childCount, esnap, eprocs, rval, win, winOverlap, mon>>
 MApplyEv(m) == /\ pc[m] = "applyev" /\ evs' = Push(evs, m) /\ Go(m, "unlock")
-               /\ UNCHANGED <<plist, mu, endTime, parts, childCount, esnap, eprocs, rval, win, winOverlap, mon>>
+               /\ UNCHANGED <<prov, plist, mu, endTime, parts, childCount, esnap, eprocs, rval, win, winOverlap, mon>>
 MUnlock(m) == /\ pc[m] = "unlock" /\ Unlock(m) /\ Go(m, "ret")
-              /\ UNCHANGED <<evs, plist, endTime, parts, childCount, esnap, eprocs, rval, win, winOverlap, mon>>
+              /\ UNCHANGED <<prov, evs, plist, endTime, parts, childCount, esnap, eprocs, rval, win, winOverlap, mon>>
 MRet(m) == /\ pc[m] = "ret" /\ Go(m, "done")
            /\ mon' = [mon EXCEPT !.mustIn = IF mon.endCalled THEN @ ELSE @ \cup {m}]
-           /\ UNCHANGED <<evs, plist, mu, endTime, parts, childCount, esnap, eprocs, rval, win, winOverlap>>
+           /\ UNCHANGED <<prov, evs, plist, mu, endTime, parts, childCount, esnap, eprocs, rval, win, winOverlap>>
 
 (* ---------------------------------------------------------- child starters *)
-CCall(c) == /\ pc[c] = "idle" /\ Go(c, "lock")
+CCall(c) == /\ pc[c] = "idle" /\ Go(c, IF ChildGuard = "sampled" /\ ~Sampled THEN "ret" ELSE "lock")    \* D5
             /\ mon' = [mon EXCEPT !.childEligible = IF mon.endRet THEN @ ELSE @ + 1]
-            /\ UNCHANGED <<evs, plist, mu, endTime, parts, childCount, esnap, eprocs, rval, win, winOverlap>>
+            /\ UNCHANGED <<prov, evs, plist, mu, endTime, parts, childCount, esnap, eprocs, rval, win, winOverlap>>
 CLock(c) == /\ pc[c] = "lock" /\ Lock(c) /\ Go(c, "incr")
-            /\ UNCHANGED <<evs, plist, endTime, parts, childCount, esnap, eprocs, rval, win, winOverlap, mon>>
+            /\ UNCHANGED <<prov, evs, plist, endTime, parts, childCount, esnap, eprocs, rval, win, winOverlap, mon>>
 CIncr(c) == /\ pc[c] = "incr" /\ Go(c, "unlock")
             /\ childCount' = IF endTime = "none" THEN childCount + 1 ELSE childCount
-            /\ UNCHANGED <<evs, plist, mu, endTime, parts, esnap, eprocs, rval, win, winOverlap, mon>>
+            /\ UNCHANGED <<prov, evs, plist, mu, endTime, parts, esnap, eprocs, rval, win, winOverlap, mon>>
 CUnlock(c) == /\ pc[c] = "unlock" /\ Unlock(c) /\ Go(c, "ret")
-              /\ UNCHANGED <<evs, plist, endTime, parts, childCount, esnap, eprocs, rval, win, winOverlap, mon>>
+              /\ UNCHANGED <<prov, evs, plist, endTime, parts, childCount, esnap, eprocs, rval, win, winOverlap, mon>>
 CRet(c) == /\ pc[c] = "ret" /\ Go(c, "done")
            /\ mon' = [mon EXCEPT !.childMustIn = IF mon.endCalled THEN @ ELSE @ + 1]
-           /\ UNCHANGED <<evs, plist, mu, endTime, parts, childCount, esnap, eprocs, rval, win, winOverlap>>
+           /\ UNCHANGED <<prov, evs, plist, mu, endTime, parts, childCount, esnap, eprocs, rval, win, winOverlap>>
 
 (* ----------------------------------------------------------------- readers *)
 RCall(r) == /\ pc[r] = "idle" /\ Go(r, "lock")
             /\ mon' = [mon EXCEPT !.rAfter = IF mon.endRet THEN @ \cup {r} ELSE @]
-            /\ UNCHANGED <<evs, plist, mu, endTime, parts, childCount, esnap, eprocs, rval, win, winOverlap>>
+            /\ UNCHANGED <<prov, evs, plist, mu, endTime, parts, childCount, esnap, eprocs, rval, win, winOverlap>>
 RLock(r) == /\ pc[r] = "lock" /\ Lock(r) /\ Go(r, "read")
-            /\ UNCHANGED <<evs, plist, endTime, parts, childCount, esnap, eprocs, rval, win, winOverlap, mon>>
+            /\ UNCHANGED <<prov, evs, plist, endTime, parts, childCount, esnap, eprocs, rval, win, winOverlap, mon>>
 RRead(r) == /\ pc[r] = "read" /\ rval' = [rval EXCEPT ![r] = (endTime = "none")] /\ Go(r, "unlock")
-            /\ UNCHANGED <<evs, plist, mu, endTime, parts, childCount, esnap, eprocs, win, winOverlap, mon>>
+            /\ UNCHANGED <<prov, evs, plist, mu, endTime, parts, childCount, esnap, eprocs, win, winOverlap, mon>>
 RUnlock(r) == /\ pc[r] = "unlock" /\ Unlock(r) /\ Go(r, "ret")
-              /\ UNCHANGED <<evs, plist, endTime, parts, childCount, esnap, eprocs, rval, win, winOverlap, mon>>
+              /\ UNCHANGED <<prov, evs, plist, endTime, parts, childCount, esnap, eprocs, rval, win, winOverlap, mon>>
 RRet(r) == /\ pc[r] = "ret" /\ Go(r, "done")
            /\ mon' = [mon EXCEPT !.bad = @ \cup (IF r \in mon.rAfter /\ rval[r] THEN {"recording-after-end"} ELSE {})
                                            \cup (IF ~mon.endCalled /\ ~rval[r] THEN {"not-recording-before-end"} ELSE {})]
-           /\ UNCHANGED <<evs, plist, mu, endTime, parts, childCount, esnap, eprocs, rval, win, winOverlap>>
+           /\ UNCHANGED <<prov, evs, plist, mu, endTime, parts, childCount, esnap, eprocs, rval, win, winOverlap>>
 
 (* -------------------------------------------------------------- registrars *)
 (* TracerProvider.RegisterSpanProcessor: copy the list, append, store the pointer (one linearization point) *)
-GCall(g) == /\ pc[g] = "idle" /\ Go(g, "store")
+(* RegisterSpanProcessor: [isShutdown pre-check,] p.mu.Lock, isShutdown check, copy+append+store, unlock.  A worker *)
+(* started by a processor's Shutdown (WaitFor) exists only while that Shutdown runs.                               *)
+PLock(x) == prov.mu = "none" /\ prov' = [prov EXCEPT !.mu = x]
+PUnlock(x) == prov.mu = x /\ prov' = [prov EXCEPT !.mu = "none"]
+GCall(g) == /\ pc[g] = "idle" /\ (g \in WaitFor => \E t \in Stoppers : pc[t] = "swait")
+            /\ Go(g, IF PreCheck /\ prov.down THEN "ret" ELSE "glock")
+            /\ UNCHANGED <<prov, evs, mu, endTime, parts, childCount, esnap, eprocs, rval, plist, win, winOverlap, mon>>
+GLock(g) == /\ pc[g] = "glock" /\ PLock(g) /\ Go(g, "gcheck")
             /\ UNCHANGED <<evs, mu, endTime, parts, childCount, esnap, eprocs, rval, plist, win, winOverlap, mon>>
-GStore(g) == /\ pc[g] = "store" /\ plist' = Append(plist, Late(g)) /\ Go(g, "ret")
-             /\ UNCHANGED <<evs, mu, endTime, parts, childCount, esnap, eprocs, rval, win, winOverlap, mon>>
+GCheck(g) == /\ pc[g] = "gcheck" /\ Go(g, IF prov.down THEN "gunlock" ELSE "store")
+             /\ UNCHANGED <<prov, evs, mu, endTime, parts, childCount, esnap, eprocs, rval, plist, win, winOverlap, mon>>
+GStore(g) == /\ pc[g] = "store" /\ plist' = Append(plist, Late(g)) /\ Go(g, "gunlock")
+             /\ UNCHANGED <<prov, evs, mu, endTime, parts, childCount, esnap, eprocs, rval, win, winOverlap, mon>>
+GUnlock(g) == /\ pc[g] = "gunlock" /\ PUnlock(g) /\ Go(g, "ret")
+              /\ UNCHANGED <<evs, mu, endTime, parts, childCount, esnap, eprocs, rval, plist, win, winOverlap, mon>>
 GRet(g) == /\ pc[g] = "ret" /\ Go(g, "done")
-           /\ mon' = [mon EXCEPT !.must = IF mon.endCalled THEN @ ELSE @ \cup {Late(g)}]
-           /\ UNCHANGED <<evs, mu, endTime, parts, childCount, esnap, eprocs, rval, plist, win, winOverlap>>
+           /\ mon' = [mon EXCEPT !.must = IF mon.endCalled \/ mon.sd \/ Late(g) \notin SeqSet(plist) THEN @ ELSE @ \cup {Late(g)}]
+           /\ UNCHANGED <<prov, evs, mu, endTime, parts, childCount, esnap, eprocs, rval, plist, win, winOverlap>>
+
+(* ---------------------------------------------------------------- stoppers *)
+(* TracerProvider.Shutdown: recursion check, p.mu.Lock, CAS isShutdown, every processor's Shutdown (user code: it  *)
+(* may call back into the provider, ReentReg, or wait for a worker that does, WaitFor) WHILE HOLDING p.mu, clear   *)
+(* the list, unlock.  From the first Shutdown / Unregister call on, delivery is C15's subject (mon.must).          *)
+Rest == <<evs, mu, endTime, parts, childCount, esnap, eprocs, rval, win, winOverlap>>
+SCall(t) == /\ pc[t] = "idle" /\ Go(t, IF prov.down THEN "ret" ELSE "slock")
+            /\ mon' = [mon EXCEPT !.must = {}, !.sd = TRUE] /\ UNCHANGED <<prov, plist, Rest>>
+SLock(t) == /\ pc[t] = "slock" /\ PLock(t) /\ Go(t, "sset") /\ UNCHANGED <<plist, mon, Rest>>
+SSet(t) == /\ pc[t] = "sset"
+           /\ IF prov.down THEN (Go(t, "sunlock") /\ UNCHANGED prov)
+                            ELSE (Go(t, "sproc") /\ prov' = [prov EXCEPT !.down = TRUE])
+           /\ UNCHANGED <<plist, mon, Rest>>
+(* inside the processors' Shutdown: a re-entrant RegisterSpanProcessor returns at its pre-check -- or queues up   *)
+(* behind p.mu, which its own caller holds                                                                       *)
+SProc(t) == /\ pc[t] = "sproc" /\ Go(t, IF ReentReg /\ ~PreCheck THEN "reent" ELSE "swait")
+            /\ UNCHANGED <<prov, plist, mon, Rest>>
+Reent(x) == /\ pc[x] = "reent" /\ prov.mu = "none"        \* p.mu is not re-entrant: never enabled for its holder
+            /\ Go(x, IF x \in Stoppers THEN "swait" ELSE IF UnregShape = "locked" THEN "uremove" ELSE "ret")
+            /\ UNCHANGED <<prov, plist, mon, Rest>>
+SWait(t) == /\ pc[t] = "swait" /\ (\A g \in WaitFor : pc[g] = "done") /\ Go(t, "sclear")
+            /\ UNCHANGED <<prov, plist, mon, Rest>>
+SClear(t) == /\ pc[t] = "sclear" /\ plist' = <<>> /\ Go(t, "sunlock") /\ UNCHANGED <<prov, mon, Rest>>
+SUnlock(t) == /\ pc[t] = "sunlock" /\ PUnlock(t) /\ Go(t, "ret") /\ UNCHANGED <<plist, mon, Rest>>
+SRet(t) == /\ pc[t] = "ret" /\ Go(t, "done") /\ UNCHANGED <<prov, plist, mon, Rest>>
+StopNext(t) == SCall(t) \/ SLock(t) \/ SSet(t) \/ SProc(t) \/ Reent(t) \/ SWait(t) \/ SClear(t) \/ SUnlock(t) \/ SRet(t)
+
+(* ------------------------------------------------------------ unregistrars *)
+(* UnregisterSpanProcessor(Processors[1]): pre-check, p.mu.Lock, check, the processor's Shutdown (once), remove.   *)
+(* "locked" (the pinned code) runs that Shutdown under p.mu: a processor whose Shutdown calls Tracer() / Register  *)
+(* (not shut down: no early return) blocks on the lock its own caller holds = deviation D4.                        *)
+Without(q, x) == SelectSeq(q, LAMBDA y : y # x)
+UCall(u) == /\ pc[u] = "idle" /\ Go(u, IF PreCheck /\ prov.down THEN "ret" ELSE "ulock")
+            /\ mon' = [mon EXCEPT !.must = @ \ {Processors[1]}] /\ UNCHANGED <<prov, plist, Rest>>
+ULock(u) == /\ pc[u] = "ulock" /\ PLock(u) /\ Go(u, "ucheck") /\ UNCHANGED <<plist, mon, Rest>>
+UCheck(u) == /\ pc[u] = "ucheck"
+             /\ Go(u, IF prov.down THEN "uunlock" ELSE IF UnregShape = "locked" THEN "ushut" ELSE "uremove")
+             /\ UNCHANGED <<prov, plist, mon, Rest>>
+UShut(u) == /\ pc[u] = "ushut"
+            /\ Go(u, IF ReentReg THEN "reent" ELSE IF UnregShape = "locked" THEN "uremove" ELSE "ret")
+            /\ UNCHANGED <<prov, plist, mon, Rest>>
+URemove(u) == /\ pc[u] = "uremove" /\ plist' = Without(plist, Processors[1]) /\ Go(u, "uunlock")
+              /\ UNCHANGED <<prov, mon, Rest>>
+UUnlock(u) == /\ pc[u] = "uunlock" /\ PUnlock(u)
+              /\ Go(u, IF UnregShape = "unlocked" /\ ~prov.down THEN "ushut" ELSE "ret") /\ UNCHANGED <<plist, mon, Rest>>
+URet(u) == /\ pc[u] = "ret" /\ Go(u, "done") /\ UNCHANGED <<prov, plist, mon, Rest>>
+UnregNext(u) == UCall(u) \/ ULock(u) \/ UCheck(u) \/ UShut(u) \/ Reent(u) \/ URemove(u) \/ UUnlock(u) \/ URet(u)
 
 EnderNext(e) == \/ ECall(e) \/ ELock(e) \/ ECheck(e) \/ EUnlockIgnored(e) \/ EUnlockForTask(e) \/ ETaskEnd(e)
                 \/ EPanicUnlock(e) \/ EPanicFormat(e) \/ EPanicRelock(e) \/ EPanicRecheck(e) \/ EPanicAddEvent(e)
@@ -254,7 +324,7 @@ EnderNext(e) == \/ ECall(e) \/ ELock(e) \/ ECheck(e) \/ EUnlockIgnored(e) \/ EUn
 MutNext(m) == MCall(m) \/ MPreCheck(m) \/ MUser(m) \/ MLock(m) \/ MCheck(m) \/ MApply(m) \/ MApplyEv(m) \/ MUnlock(m) \/ MRet(m)
 ChildNext(c) == CCall(c) \/ CLock(c) \/ CIncr(c) \/ CUnlock(c) \/ CRet(c)
 ReadNext(r) == RCall(r) \/ RLock(r) \/ RRead(r) \/ RUnlock(r) \/ RRet(r)
-RegNext(g) == GCall(g) \/ GStore(g) \/ GRet(g)
+RegNext(g) == GCall(g) \/ GLock(g) \/ GCheck(g) \/ GStore(g) \/ GUnlock(g) \/ GRet(g)
 AllDone == \A x \in Procs : pc[x] = "done"
 Terminated == AllDone /\ UNCHANGED vars      \* so that TLC's deadlock check means: somebody is stuck
 Next == \/ Terminated
@@ -263,6 +333,8 @@ Next == \/ Terminated
         \/ \E c \in Children : ChildNext(c)
         \/ \E r \in Readers : ReadNext(r)
         \/ \E g \in RegSet : RegNext(g)
+        \/ \E t \in Stoppers : StopNext(t)
+        \/ \E u \in Unregs : UnregNext(u)
 
 (* a call, once made, keeps running (the calls themselves are the environment's choice) *)
 Running(x) == pc[x] \notin {"idle", "done"}
@@ -271,6 +343,8 @@ Fairness == /\ \A e \in Enders : WF_vars(Running(e) /\ EnderNext(e))
             /\ \A c \in Children : WF_vars(Running(c) /\ ChildNext(c))
             /\ \A r \in Readers : WF_vars(Running(r) /\ ReadNext(r))
             /\ \A g \in RegSet : WF_vars(Running(g) /\ RegNext(g))
+            /\ \A t \in Stoppers : WF_vars(Running(t) /\ StopNext(t))
+            /\ \A u \in Unregs : WF_vars(Running(u) /\ UnregNext(u))
 Spec == Init /\ [][Next]_vars
 FairSpec == Spec /\ Fairness
 
